@@ -13,6 +13,8 @@
 (*                        code emits them in HashSet iteration order, the  *)
 (*                        model in ascending code order (instances do not  *)
 (*                        expand such states; recorded traces cover them)  *)
+(*         ns  : Nat      ghost: macros saved so far, capped at 9 (bounds   *)
+(*                        the exhaustive instances)                        *)
 (*         pn  : STRING   panic site reached ("" = none) ]                 *)
 (*   RecordState = [id, wait : <<>> | <<[k, c]>>, items, delay]            *)
 (*   ReplayState = [active : SUBSET Nat, rem : Nat, items : Seq(Item)]     *)
@@ -21,7 +23,7 @@
 EXTENDS Naturals, Sequences, FiniteSets
 
 DmItem(k, c, d) == [k |-> k, c |-> c, d |-> d]
-DmInit == [rec |-> <<>>, rep |-> <<>>, mac |-> <<>>, nt |-> 1, amb |-> FALSE, pn |-> ""]
+DmInit == [rec |-> <<>>, rep |-> <<>>, mac |-> <<>>, nt |-> 1, amb |-> FALSE, ns |-> 0, pn |-> ""]
 DmU16Max == 65535
 DmSatSub(a, b) == IF a > b THEN a - b ELSE 0
 
@@ -69,12 +71,14 @@ DmFlush(r) ==
 \* src: dynamic_macro.rs:63-78 add_event (one-event lag: the newest event waits in `waiting_event`)
 DmAddEvent(r, k, c) == [DmFlush(r) EXCEPT !.delay = 0, !.wait = <<[k |-> k, c |-> c]>>]
 
-\* src: dynamic_macro.rs:97-101 tick_record_state (saturating_add(1); `cap` = the model's age cap)
+\* src: dynamic_macro.rs:97-101 tick_record_state (saturating_add(1); `cap` = the model's age cap with the
+\* `recorded` delay behaviour, 0 with `constant`, where the recorded delays are never read)
 DmTickRecord(D, cap) ==
   IF D.rec = <<>> THEN D
   ELSE [D EXCEPT !.rec[1].delay = IF @ + 1 > cap THEN cap ELSE @ + 1]
 
-DmSave(D, id, ia) == [D EXCEPT !.mac = DmPut(@, id, ia.items), !.amb = @ \/ ia.amb]
+DmSave(D, id, ia) == [D EXCEPT !.mac = DmPut(@, id, ia.items), !.amb = @ \/ ia.amb,
+                                !.ns = IF @ < 9 THEN @ + 1 ELSE @]
 
 \* src: dynamic_macro.rs:159-202 begin_record_macro (+ mod.rs DynamicMacroRecord arm: insert)
 DmBeginRecord(D, id) ==
@@ -141,9 +145,11 @@ DmTickReplay(D, recorded) ==
                        IN [D |-> [D EXCEPT !.rep = <<s2>>], ev |-> <<[p |-> i.k = "p", c |-> i.c, d |-> d]>>]
 
 \* ----- projection (binding B): what the harness reads off the public fields --------------------
-\* the trailing run of zero-delay releases is compared as a sorted list (HashSet order, see above)
+\* the trailing run of releases is compared as a sorted list (HashSet order, see above); the delays
+\* are not projected: with the `recorded` behaviour every delay shows as the number of ticks (nt) its
+\* event takes in the replay, with `constant` they are never read
 DmTrailLen(items) ==
-  LET I == {i \in 0..Len(items) : \A j \in (Len(items) - i + 1)..Len(items) : items[j].k = "r" /\ items[j].d = 0}
+  LET I == {i \in 0..Len(items) : \A j \in (Len(items) - i + 1)..Len(items) : items[j].k = "r"}
   IN CHOOSE i \in I : \A j \in I : j <= i
 RECURSIVE DmInsSorted(_, _)
 DmInsSorted(s, x) == IF s = <<>> THEN <<x>>
@@ -154,7 +160,7 @@ DmCanonItems(items) ==
   LET t == DmTrailLen(items)
       n == Len(items)
       tail == DmSortSeq([i \in 1..t |-> items[n - t + i].c])
-  IN [i \in 1..(n - t) |-> <<items[i].k, items[i].c, items[i].d>>] \o [i \in 1..t |-> <<"r", tail[i], 0>>]
+  IN [i \in 1..(n - t) |-> <<items[i].k, items[i].c>>] \o [i \in 1..t |-> <<"r", tail[i]>>]
 DmProj(D) ==
   [ dm |-> [i \in 1..Len(D.mac) |-> <<D.mac[i].id, DmCanonItems(D.mac[i].items)>>],
     drec |-> D.rec # <<>>, drep |-> D.rep # <<>>, nt |-> D.nt ]
